@@ -905,7 +905,10 @@ impl Matcher for TermCapMatcher {
                 );
             }
         } else {
-            for key in data[5..data.len() - 2].split(|b| *b == b';') {
+            for key in data[5..data.len() - 2]
+                .split(|b| *b == b';')
+                .filter(|key| !key.is_empty())
+            {
                 termcap.insert(hex_decode(key).map(char::from).collect(), None);
             }
         }
